@@ -146,7 +146,7 @@ EXTRA = {
  "C13": ("; pipe-id pairing", ""),
  "C14": ("; ErrClosed-only-for-own-closed-state in transports (the redial loop stops for good on ErrClosed)", ""),
  "C15": ("; upgrader configured once, header-split order", ""),
- "C16": ("; accept loops wait for nothing but Accept (E4 may-block summaries inside the loop), drop-does-not-disconnect, reply-matching shared with C03.1", ""),
+ "C16": ("; accept loops wait for nothing but Accept (E4 may-block summaries inside the loop), drop-does-not-disconnect, reply-matching shared with C03.1; crash surface: every explicit panic and unchecked type assertion in the functions reachable (VTA call graph) from receive goroutines, handshake/accept and pipe attach/detach is an obligation discharged only by a structural justification (pool contents, SetPrivate/GetPrivate pairing with must-pass-through in AddPipe, possible dynamic types of the operand, a named standard-library contract)", ""),
  "C17": ("; send-contract per implementation (incl. deferred Free), write-before-MakeUnique, header restored by a value read before the strip, unique-sites table", ""),
  "C18": ("; in-progress token released on every return", ""),
  "C19": ("; queue capacity equals the ...QLen field wherever a queue is built, queue-swap wake-up, refused Device starts no forwarder", ""),
